@@ -1,3 +1,4 @@
+import Litep2pVerif.Model.Bitswap.Prefix
 /-!
 # Bitswap response batching (C20)
 
@@ -6,7 +7,7 @@ the block loop of `send_response` in `src/protocol/libp2p/bitswap/mod.rs`. The b
 at `data.len()` and the encoding's size depends only on the lengths of prefix and data, so the
 model is generic in the block type `β` with the two length projections (`Sized β`).
 
-Import-free (core Lean only).
+Imports only the prefix model (core Lean only).
 -/
 namespace Litep2pVerif.Bitswap
 
@@ -95,5 +96,11 @@ def sendResponse (S : Sized β) (maxBatch cap maxMsg : Nat) (blocks : List β) :
 /-- Batches actually written. -/
 def sentBatches (steps : List (Step β)) : List (List β) :=
   (steps.filter (·.sent)).map (·.batch)
+
+/-- The blocks of a real response: `(Cid, Vec<u8>)` with the prefix `blocks_message` writes. -/
+def wireBlocks : Sized (Cid × Bytes) := ⟨fun b => b.1.toPrefix.toBytes.length, fun b => b.2.length⟩
+
+/-- Blocks reduced to (prefix length, data length). -/
+def lenPair : Sized (Nat × Nat) := ⟨Prod.fst, Prod.snd⟩
 
 end Litep2pVerif.Bitswap
